@@ -15,6 +15,9 @@ rewritten into lean/YashModel/Generated/ErrexitTables.lean on every run.
   parserErrorStatus  the `(cause, source) => ExitStatus::…` match of `Handle for parser::Error`
                                                                                yash-semantics/src/handle.rs
   builtins           name and `Type` of every entry of the built-in table      yash-builtin/src/lib.rs
+  framePushes        every `push_frame(<Frame>)` call (outside the test modules) of the files that execute
+                     commands: (file, enclosing fn, Frame variant) — which construct pushes which frame is what
+                     decides where errexit is ignored and what `break` can see     yash-semantics/src/command/**
 
 The replicas of the `run_as_shell_process` tail in the harness (harness/src/shell.rs `eval_source`,
 harness/src/bin/c10.rs `sc_tail`) are parsed with the same function and must give the same table:
@@ -344,6 +347,63 @@ def builtin_table(h, types):
     return rows
 
 
+COMMAND_FILES = [
+    "yash-semantics/src/command.rs",
+    "yash-semantics/src/command/and_or.rs",
+    "yash-semantics/src/command/item.rs",
+    "yash-semantics/src/command/pipeline.rs",
+    "yash-semantics/src/command/compound_command.rs",
+    "yash-semantics/src/command/compound_command/case.rs",
+    "yash-semantics/src/command/compound_command/for_loop.rs",
+    "yash-semantics/src/command/compound_command/if.rs",
+    "yash-semantics/src/command/compound_command/subshell.rs",
+    "yash-semantics/src/command/compound_command/while_loop.rs",
+    "yash-semantics/src/command/function_definition.rs",
+    "yash-semantics/src/command/simple_command.rs",
+    "yash-semantics/src/command/simple_command/absent.rs",
+    "yash-semantics/src/command/simple_command/builtin.rs",
+    "yash-semantics/src/command/simple_command/external.rs",
+    "yash-semantics/src/command/simple_command/function.rs",
+]
+
+
+def frame_pushes(h, frames):
+    """[(file name, enclosing fn, Frame variant)] of every `push_frame(…)` outside `#[cfg(test)]` code"""
+    rows = []
+    for rel in COMMAND_FILES:
+        src = strip_comments(h.read(rel))
+        k = re.search(r"#\s*\[\s*cfg\s*\(\s*test\s*\)\s*\]", src)
+        if k:
+            src = src[:k.start()]
+        for m in re.finditer(r"\bpush_frame\s*\(", src):
+            # the argument: up to the matching parenthesis
+            depth, e = 1, m.end()
+            while e < len(src) and depth:
+                if src[e] in "([{":
+                    depth += 1
+                elif src[e] in ")]}":
+                    depth -= 1
+                e += 1
+            arg = re.sub(r"\s+", " ", src[m.end():e - 1]).strip().rstrip(",").strip()   # rustfmt's trailing comma
+            a = re.sub(r"\.\s*into\s*\(\s*\)\s*$", "", arg).strip()
+            mm = re.match(r"((?:\w+\s*::\s*)*\w+)\s*(\(.*\)|\{.*\})?$", a, flags=re.S)
+            if not mm:
+                h.fail(f"errexit: cannot classify the frame pushed by `push_frame({arg[:60]})` in {rel}")
+            name = last_ident(mm.group(1))
+            if name.startswith("Frame") and name != "Frame" and name[5:] in frames:
+                name = name[5:]          # `FrameBuiltin { … }.into()` = `Frame::Builtin(Builtin { … })`
+            if name not in frames:
+                h.fail(f"errexit: `push_frame({arg[:60]})` in {rel} names no variant of Frame "
+                       "(a frame held in a variable cannot be classified)")
+            fns = re.findall(r"\bfn\s+(\w+)", src[:m.start()])
+            if not fns:
+                h.fail(f"errexit: push_frame outside any fn in {rel}")
+            rows.append((os.path.basename(rel), fns[-1], name))
+    if not rows:
+        h.fail("errexit: no push_frame call found in yash-semantics/src/command/**")
+    return sorted(rows)
+
+
 def lean_bool(b):
     return "true" if b else "false"
 
@@ -379,6 +439,7 @@ def extract(h):
             h.fail(f"errexit: the replica of the run_as_shell_process tail in {rel} is stale: {rep} != {cli}")
     perr = parser_error_status(h, statuses)
     builtins = builtin_table(h, types)
+    pushes = frame_pushes(h, frames)
 
     out = ""
     for n, v in statuses:
@@ -406,6 +467,10 @@ def extract(h):
     out += (f"/-- name and `Type` of every built-in of {BUILTINS} -/\n"
             "def builtins : List (String × String) := [\n"
             + ",\n".join(f"  ({h.lean_str(n)}, {h.lean_str(t)})" for n, t in builtins) + "]\n")
+    out += ("\n/-- every `push_frame(…)` of the files under yash-semantics/src/command that execute commands (test "
+            "modules excluded): (file, enclosing fn, Frame variant), sorted -/\n"
+            "def framePushes : List (String × String × String) := [\n"
+            + ",\n".join(f"  ({h.lean_str(a)}, {h.lean_str(b)}, {h.lean_str(c)})" for a, b, c in pushes) + "]\n")
     h.write("ErrexitTables", out)
 
 
